@@ -1,4 +1,4 @@
-\* probing phase of a new transfer, every -B class, one pause; real constants, channel capacities 2
+\* two files, liveness
 SPECIFICATION Spec
 CONSTANTS
   Floor = 1024
@@ -8,17 +8,18 @@ CONSTANTS
   BoundFloor = 1048576
   SendCap = 2
   AckCap = 2
-  MaxBufs = {1024, 4096, 10240, 40960, 1073741824}
+  MaxBufs = {4096, 40960}
   Modes = {"bin"}
-  Protos = {4}
+  Protos = {2, 3, 4}
   Secs = {2, 20}
   MaxChunks = 2
   P1MaxChunks = 1
-  MaxFiles = 1
+  MaxFiles = 2
   MaxPauses = 1
   StartSizes = {}
   Variant = "coded"
 INVARIANTS TypeOK SizeInRange ChunksInRange NeverRejectedByReceiver NothingQueuedIsRejected ProbeEndsOnce
   TokenPaired EncoderNotStuck OneChunkWhileProbing DoubleOnlyWhenAllowed ShrinkOnlyWhenSlow
   SuspendedAfterPause ProbeEndedBy
+PROPERTIES Termination
 CHECK_DEADLOCK TRUE
